@@ -156,11 +156,18 @@ fn inline_image(lexer: &mut Lexer, resolve: &impl Resolve) -> Result<Arc<ImageXO
     lexer.next_expect("ID")?;
     let data_start = lexer.get_pos() + 1;
 
-    // find the end before try parsing.
-    if lexer.seek_substr("\nEI").is_none() {
-        bail!("inline image exceeds expected data range");
-    }    
-    let data_end = lexer.get_pos() - 3;
+    // find the end before try parsing: `EI` after a white-space byte and followed by white-space or the end
+    let rest = lexer.get_remaining_slice();
+    let is_ws = |b: u8| matches!(b, b' ' | b'\n' | b'\r' | b'\t' | 0x0c | 0);
+    let end = (1 .. rest.len().saturating_sub(1)).find(|&i|
+        rest[i] == b'E' && rest[i+1] == b'I' && is_ws(rest[i-1]) && rest.get(i+2).map_or(true, |&b| is_ws(b))
+    );
+    let end = match end {
+        Some(end) => end,
+        None => bail!("inline image exceeds expected data range")
+    };
+    let data_end = lexer.get_pos() + end - 1;
+    lexer.set_pos(data_end + 3);
 
     // ugh
     let bits_per_component = dict.get("BitsPerComponent").map(|p| p.as_integer()).transpose()?;
@@ -216,7 +223,7 @@ fn inline_image(lexer: &mut Lexer, resolve: &impl Resolve) -> Result<Arc<ImageXO
         other: dict,
     };
 
-    let data = lexer.new_substr(data_start .. data_end).to_vec();
+    let data = lexer.new_substr(data_start.min(data_end) .. data_end).to_vec();
 
     Ok(Arc::new(ImageXObject { inner: Stream::from_compressed(image_dict, data, filters) }))
 }
